@@ -589,10 +589,16 @@ class ID3FramesSpec(Spec):
     def read(self, header, frame, data):
         from ._tags import ID3Tags
 
+        # frames embedding frames embedding frames.. give up at some point
+        # instead of running into the recursion limit
+        depth = getattr(header, "_nesting", 0)
+        if depth >= 16:
+            raise SpecError("embedded frames nested too deeply")
+        header = copy.copy(header)
+        header._nesting = depth + 1
         if header.f_unsynch:
             # the enclosing frame (or the whole tag for < v2.4) has already
             # been de-unsynchronised, don't do it again for the sub-frames
-            header = copy.copy(header)
             header._flags &= ~0x80
 
         tags = ID3Tags()
